@@ -26,13 +26,20 @@ def dictGet (k : Val) : List (Val × Val) → Option Val
   | [] => none
   | (k', v) :: rest => if k' == k then some v else dictGet k rest
 
+/-- decode the entries of a typed dict's on-disk form; an entry whose key or value cannot be decoded is a rejection naming that
+    entry's (on-disk) key, like a rejection of the decoded entry (`DictField.to_python`, after F51) -/
 def mapPairs (fk fv : Val → R Val) : List (Val × Val) → R (List (Val × Val))
   | [] => .ok []
-  | (k, v) :: rest => do
-    let k' ← fk k
-    let v' ← fv v
-    let rest' ← mapPairs fk fv rest
-    .ok ((k', v') :: rest')
+  | (k, v) :: rest =>
+    match fk k with
+    | .error _ => .error (.entry k)
+    | .ok k' =>
+      match fv v with
+      | .error _ => .error (.entry k)
+      | .ok v' =>
+        match mapPairs fk fv rest with
+        | .error e => .error e
+        | .ok rest' => .ok ((k', v') :: rest')
 
 mutual
   /-- `field.to_basic(cfg, value)` -/
